@@ -26,7 +26,7 @@ Record XF (s s' : core) : Prop := {
   xf_evb : ev_batch s' = ev_batch s;
   xf_t16 : task_registered s LOCAL_TASK = true -> task_registered s' LOCAL_TASK = true;
   xf_clock : clock (kern s) <= clock (kern s');
-  xf_time : time_valid s' = true -> (time_valid s = true /\ time s' = time s) \/ time s' = clock (kern s);
+  xf_time : time_valid s' = true -> (time_valid s = true /\ time s' = time s) \/ clock (kern s) <= time s';
   xf_mevp : a_evp (mst s') = a_evp (mst s) }.
 
 Lemma XF_refl : forall s, XF s s.
@@ -38,7 +38,7 @@ Proof.
   - intros j I H. rewrite F6 in H. unfold ev_on_list. rewrite F1, F2. apply X1; assumption.
   - rewrite F1. auto.
   - lia.
-  - intros H. destruct (F5 H) as [[H1 H2]|H2]; [rewrite H2; auto|rewrite H2; exact X3].
+  - intros H. destruct (F5 H) as [[H1 H2]|H2]; [rewrite H2; auto|lia].
 Qed.
 
 Lemma XF_Same : forall s s', Same s s' -> XF s s'.
@@ -59,8 +59,13 @@ Proof.
   - rewrite rs_mst. reflexivity.
 Qed.
 
-Lemma XF_trans : forall a b c, XF a b -> XF b c -> 1 <= 1 -> XF a c \/ True.
-Proof. intros. right. exact Logic.I. Qed.
+Lemma XF_trans : forall a b c, XF a b -> XF b c -> XF a c.
+Proof.
+  intros a b c [A1 A2 A3 A4 A5 A6] [B1 B2 B3 B4 B5 B6]. constructor; try congruence; auto; try lia.
+  intros H. destruct (B5 H) as [[H1 H2]|H2].
+  - destruct (A5 H1) as [[H3 H4]|H4]; [left; split; congruence|right; lia].
+  - right. lia.
+Qed.
 
 (* fields the invariant reads are untouched *)
 Lemma XI_plain : forall s s', XI s -> ev_pending s' = ev_pending s -> ev_batch s' = ev_batch s -> tasks s' = tasks s ->
@@ -198,7 +203,7 @@ Proof.
   - apply f_equal. apply mst_trace. exact T.
 Qed.
 
-Ltac plain_act X a := apply (xi_plain_act _ a _ X); [evq_act|reflexivity..].
+Ltac plain_act X a := apply (xi_plain_act _ a _ X); first [evq_act|reflexivity].
 
 Lemma xi_AFdCookie : forall s i c, XI s -> PXI s (do_action s (AFdCookie i c)).
 Proof. intros s i c X. cbn [do_action]. unfold PXI. cbn [ARes]. plain_act X (AFdCookie i c). Qed.
@@ -206,7 +211,7 @@ Lemma xi_AFdFresh : forall s i, XI s -> PXI s (do_action s (AFdFresh i)).
 Proof. intros s i X. cbn [do_action]. dm; [apply PXI_same; exact X|]. unfold PXI. cbn [ARes]. plain_act X (AFdFresh i). Qed.
 Lemma xi_AKSet : forall s i c, XI s -> PXI s (do_action s (AKSet i c)).
 Proof.
-  intros s i c X. cbn [do_action]. unfold PXI. cbn [ARes]. apply (xi_plain_act _ (AKSet i c) _ X); try reflexivity; [evq_act|].
+  intros s i c X. cbn [do_action]. unfold PXI. cbn [ARes]. apply (xi_plain_act _ (AKSet i c) _ X); try reflexivity.
   apply (ksame_set_cond (kern s) i c).
 Qed.
 Lemma xi_AKOpen : forall s i, XI s -> PXI s (do_action s (AKOpen i)).
@@ -214,14 +219,14 @@ Proof. intros s i X. cbn [do_action]. unfold PXI. cbn [ARes]. plain_act X (AKOpe
 Lemma xi_AKClose : forall s i, XI s -> PXI s (do_action s (AKClose i)).
 Proof.
   intros s i X. cbn [do_action]. dm; [apply PXI_same; exact X|]. unfold PXI. cbn [ARes].
-  apply (xi_plain_act _ (AKClose i) _ X); try reflexivity; [evq_act|]. apply (ksame_user_close (kern s) i).
+  apply (xi_plain_act _ (AKClose i) _ X); try reflexivity. apply (ksame_user_close (kern s) i).
 Qed.
 Lemma xi_ARwPost : forall s j, XI s -> PXI s (do_action s (ARwPost j)).
 Proof.
   intros s j X. cbn [do_action]. dm; [|apply PXI_same; exact X]. unfold PXI. cbn [ARes]. unfold raw_post.
   match goal with |- context [let '(k1, _) := ?W in _] => assert (KS : clock (fst W) = clock (kern s)); [|destruct W as [k1 x]] end.
   { destruct (efd_raw _ =? 0); apply ksame_write. }
-  cbn [fst] in KS. apply (xi_plain_act _ (ARwPost j) _ X); try reflexivity; [evq_act|exact KS].
+  cbn [fst] in KS. apply (xi_plain_act _ (ARwPost j) _ X); try reflexivity. exact KS.
 Qed.
 Lemma xi_log : forall s a, XI s -> evq (TAct a) -> PXI s (R (emit s (TAct a))).
 Proof. intros s a X Q. unfold PXI. cbn [ARes]. split; [apply XI_emit; assumption|apply Eb_same; reflexivity]. Qed.
@@ -235,3 +240,235 @@ Lemma xi_AQuit : forall s, XI s -> PXI s (do_action s AQuit).
 Proof. intros s X. cbn [do_action]. unfold PXI. cbn [ARes]. plain_act X AQuit. Qed.
 Lemma xi_ATkFresh : forall s j, XI s -> PXI s (do_action s (ATkFresh j)).
 Proof. intros s j X. cbn [do_action]. dm; [apply PXI_same; exact X|]. unfold PXI. cbn [ARes]. plain_act X (ATkFresh j). Qed.
+
+Lemma xi_AClockAdv : forall s d, XI s -> 0 <= d -> PXI s (do_action s (AClockAdv d)).
+Proof.
+  intros s d X D. cbn [do_action]. unfold PXI. cbn [ARes].
+  apply (XF_comp s (emit s (TAct (AClockAdv d)))); [apply XF_emit; evq_act| |exact X].
+  constructor; try reflexivity; auto.
+  cbn [kern set_kern clock k_set_clock emit set_trace]. lia.
+Qed.
+
+Lemma xi_AInvalidate : forall s, XI s -> PXI s (do_action s AInvalidate).
+Proof.
+  intros s X. cbn [do_action]. unfold PXI. cbn [ARes].
+  apply (XF_comp s (emit s (TAct AInvalidate))); [apply XF_emit; evq_act| |exact X].
+  constructor; try reflexivity; auto; try lia; try (intros H; discriminate H).
+Qed.
+
+Lemma XF_validate : forall s, XF s (validate_now s).
+Proof.
+  intros s. unfold validate_now. destruct (time_valid s) eqn:TV; [apply XF_refl|].
+  constructor; try reflexivity; auto; try lia; try (intros _; right; cbn [time kern set_time]; lia).
+Qed.
+
+Lemma xi_AValidate : forall s, XI s -> PXI s (do_action s AValidate).
+Proof.
+  intros s X. cbn [do_action]. unfold PXI. cbn [ARes].
+  apply (XF_comp s (emit s (TAct AValidate))); [apply XF_emit; evq_act|apply XF_validate|exact X].
+Qed.
+
+(* timers *)
+Lemma xi_lift_heap : forall s0 s o, XI s0 -> XF s0 s -> PXI s0 (lift_heap s o).
+Proof.
+  intros s0 s o X F. destruct o as [h|h|]; cbn [lift_heap]; unfold PXI; cbn [ARes halt]; try exact Logic.I.
+  apply (XF_comp s0 s); [exact F| |exact X].
+  constructor; try reflexivity; auto; try lia; try (intros H; left; split; [exact H|reflexivity]).
+Qed.
+
+Lemma xi_ATmRegAbs : forall s j e, XI s -> PXI s (do_action s (ATmRegAbs j e)).
+Proof.
+  intros s j e X. cbn [do_action]. dm; [apply PXI_same; exact X|].
+  apply xi_lift_heap; [exact X|apply XF_emit; evq_act].
+Qed.
+
+Lemma xi_ATmUnreg : forall s j, XI s -> PXI s (do_action s (ATmUnreg j)).
+Proof.
+  intros s j X. cbn [do_action]. dm; [|apply PXI_same; exact X].
+  apply xi_lift_heap; [exact X|apply XF_emit; evq_act].
+Qed.
+
+Lemma xi_ATmRegRel : forall s j d, XI s -> PXI s (do_action s (ATmRegRel j d)).
+Proof.
+  intros s j d X. cbn [do_action]. dm; [apply PXI_same; exact X|]. cbv zeta.
+  set (s1 := validate_now s).
+  destruct (XIF s s1 X (XF_validate s)) as [X1 E1].
+  pose proof (xi_lift_heap s1 (emit s1 (TAct (ATmRegAbs j (time s1 + d)))) (HeapModel.register (HeapModel.set_exp (heap s1) (tmid j) (time s1 + d)) (tmid j)) X1 (XF_emit s1 (TAct (ATmRegAbs j (time s1 + d))) Logic.I)) as Q.
+  destruct (lift_heap _ _) as [s2|s2]; unfold PXI in *; cbn [ARes] in *; [|exact Logic.I].
+  destruct Q as [Q1 Q2]. split; [exact Q1|eapply Eb_trans; eassumption].
+Qed.
+
+(* tasks *)
+Lemma xi_ATkReg : forall s j, XI s -> inr16 j -> PXI s (do_action s (ATkReg j)).
+Proof.
+  intros s j X I. cbn [do_action]. dm; [apply PXI_same; exact X|]. unfold PXI. cbn [ARes].
+  set (ex := emit s (TAct (ATkReg j))).
+  destruct (task_register_acc ex j) as (_ & _ & _ & _ & _ & _ & _ & _ & TR).
+  apply (XF_comp s ex); [apply XF_emit; evq_act| |exact X].
+  assert (TS : trace (task_register ex j) = trace ex) by apply task_register_trace.
+  constructor.
+  - unfold task_register. cbv zeta. repeat dm; reflexivity.
+  - unfold task_register. cbv zeta. repeat dm; reflexivity.
+  - intros H. rewrite TR, H. reflexivity.
+  - unfold task_register. cbv zeta. repeat dm; cbn [kern set_tasks set_numobjs]; lia.
+  - intros H. left. unfold task_register in *. cbv zeta in *. revert H. repeat dm; cbn [time_valid time set_tasks set_numobjs]; auto.
+  - rewrite (mst_trace ex _ TS). reflexivity.
+Qed.
+
+Lemma xi_ATkUnreg : forall s j, XI s -> inr16 j -> PXI s (do_action s (ATkUnreg j)).
+Proof.
+  intros s j X I. cbn [do_action]. dm; [|apply PXI_same; exact X]. unfold PXI. cbn [ARes].
+  set (ex := emit s (TAct (ATkUnreg j))).
+  apply (XF_comp s ex); [apply XF_emit; evq_act| |exact X].
+  constructor; try reflexivity; auto; try lia.
+  - intros H. apply task_registered_In in H. apply task_registered_In.
+    assert (TL : tasks (task_unregister ex j) ++ curl (task_unregister ex j) = remove_z j (tasks ex ++ curl ex)).
+    { unfold task_unregister, curl. cbn [tasks cur set_tasks set_numobjs]. rewrite remove_z_app. destruct (cur ex); reflexivity. }
+    rewrite TL. apply In_remove_z. split; [exact H|]. unfold inr16, LOCAL_TASK in *. lia.
+Qed.
+
+(* raw events *)
+Lemma xi_ARwReg : forall b s j, J b s -> XI s -> inr16 j -> PXI s (do_action s (ARwReg j)).
+Proof.
+  intros b s j Jh X I. cbn [do_action]. destruct (rw_reg s j) eqn:RG; [apply PXI_same; exact X|].
+  set (ex := emit s (TAct (ARwReg j))).
+  pose proof (j_fx _ _ Jh) as FX. apply (FdX_emit s (TAct (ARwReg j))) in FX.
+  destruct (proj1 (FdX_split _) FX) as (XA & _ & _).
+  pose proof (raw_register_spec ex j (FdI_emit _ _ _ (j_fd _ _ Jh)) XA ltac:(unfold inr16 in I; lia) RG) as Q.
+  unfold RawRegPost in Q. destruct (raw_register ex j) as [r failed]. cbn [fst snd] in Q.
+  destruct r as [s1|s1]; unfold PXI; cbn [bind ARes FdRes] in *; [|exact Logic.I].
+  destruct Q as (RS & ES & _).
+  assert (X1 : XI s1 /\ Eb s s1).
+  { apply (XF_comp s ex s1); [apply XF_emit; evq_act|apply XF_Raw; [exact RS|apply (es_evp _ _ ES)|apply (es_evb _ _ ES)]|exact X]. }
+  destruct X1 as [X1 E1]. split; [apply XI_emit; [exact X1|evq_act]|exact E1].
+Qed.
+
+Lemma xi_ARwUnreg : forall b s j, J b s -> XI s -> inr16 j -> PXI s (do_action s (ARwUnreg j)).
+Proof.
+  intros b s j Jh X I. cbn [do_action]. destruct (rw_reg s j) eqn:RG; [|apply PXI_same; exact X].
+  set (ex := emit s (TAct (ARwUnreg j))).
+  pose proof (j_fx _ _ Jh) as FX. apply (FdX_emit s (TAct (ARwUnreg j))) in FX.
+  destruct (proj1 (FdX_split _) FX) as (XA & _ & _).
+  pose proof (raw_unregister_spec ex j (FdI_emit _ _ _ (j_fd _ _ Jh)) XA ltac:(unfold inr16 in I; lia)) as Q.
+  destruct (raw_unregister ex j) as [s1|s1]; unfold PXI; cbn [ARes FdRes] in *; [|exact Logic.I].
+  destruct Q as (RS & ES & _).
+  apply (XF_comp s ex s1); [apply XF_emit; evq_act|apply XF_Raw; [exact RS|apply (es_evp _ _ ES)|apply (es_evb _ _ ES)]|exact X].
+Qed.
+
+(* events *)
+Lemma xi_AEvReg : forall b s j, J b s -> XI s -> inr16 j -> PXI s (do_action s (AEvReg j)).
+Proof.
+  intros b s j Jh X I. cbn [do_action]. destruct (ev_reg s j) eqn:RG; [apply PXI_same; exact X|].
+  set (ex := emit s (TAct (AEvReg j))).
+  pose proof (event_register_spec ex j (FdI_emit _ _ _ (j_fd _ _ Jh)) (FdX_emit _ _ (j_fx _ _ Jh)) I RG) as Q.
+  destruct (event_register ex j) as [r failed]. cbn [fst snd] in Q.
+  destruct r as [s1|s1]; unfold PXI; cbn [bind ARes FdRes] in *; [|exact Logic.I].
+  destruct Q as (RS & _ & _ & EP & EB & _).
+  assert (X1 : XI s1 /\ Eb s s1).
+  { apply (XF_comp s ex s1); [apply XF_emit; evq_act|apply XF_Raw; assumption|exact X]. }
+  destruct X1 as [X1 E1]. split; [apply XI_emit; [exact X1|evq_act]|exact E1].
+Qed.
+
+Lemma ev_on_list_remove : forall s s' j y, ev_pending s' = remove_z j (ev_pending s) -> ev_batch s' = remove_z j (ev_batch s) ->
+  y <> j -> ev_on_list s y = true -> ev_on_list s' y = true.
+Proof.
+  intros s s' j y E1 E2 N H. apply ev_on_list_In in H. apply ev_on_list_In. rewrite E1, E2, <- remove_z_app.
+  apply In_remove_z. split; assumption.
+Qed.
+
+Lemma xi_AEvUnreg : forall b s j, J b s -> XI s -> inr16 j -> PXI s (do_action s (AEvUnreg j)).
+Proof.
+  intros b s j Jh X I. cbn [do_action]. destruct (ev_reg s j) eqn:RG; [|apply PXI_same; exact X].
+  set (ex := emit s (TAct (AEvUnreg j))).
+  pose proof (event_unregister_spec ex j (FdI_emit _ _ _ (j_fd _ _ Jh)) (FdX_emit _ _ (j_fx _ _ Jh)) I RG) as Q.
+  destruct (event_unregister ex j) as [s1|s1]; unfold PXI; cbn [ARes FdRes] in *; [|exact Logic.I].
+  destruct Q as (RS & _ & _ & EP & EB & _). destruct RS. destruct X as [X1 X2 X3 X4].
+  assert (M1 : mst s1 = mon_action (mst s) (AEvUnreg j)) by (rewrite rs_mst; apply mst_act).
+  split.
+  - constructor.
+    + intros y Y H. rewrite M1 in H. cbn [mon_action a_evp m_evs] in H. unfold upd in H.
+      destruct (Z.eqb_spec y j) as [->|N]; [discriminate H|].
+      apply (ev_on_list_remove ex s1 j y EP EB N). apply X1; assumption.
+    + rewrite EP. intros H. unfold task_registered. rewrite rs_tasks, rs_cur. apply X2.
+      intros E. apply H. change (ev_pending ex) with (ev_pending s). rewrite E. reflexivity.
+    + rewrite rs_clock. exact X3.
+    + rewrite rs_tv, rs_time. exact X4.
+  - intros H. rewrite EB. change (ev_batch ex) with (ev_batch s). rewrite H. reflexivity.
+Qed.
+
+Lemma xi_AEvPost : forall s j, XI s -> inr16 j -> PXI s (do_action s (AEvPost j)).
+Proof.
+  intros s j X I. cbn [do_action]. destruct (ev_reg s j) eqn:RG; [|apply PXI_same; exact X].
+  set (ex := emit s (TAct (AEvPost j))). destruct X as [X1 X2 X3 X4].
+  assert (MX : mst ex = mon_action (mst s) (AEvPost j)) by apply mst_act.
+  assert (CV : forall s', mst s' = mst ex ->
+            (forall y, ev_on_list s y = true -> ev_on_list s' y = true) -> ev_on_list s' j = true ->
+            forall y, inr16 y -> a_evp (mst s') y = true -> ev_on_list s' y = true).
+  { intros s' M MONO OJ y Y H. rewrite M, MX in H. cbn [mon_action a_evp m_evs m_spin] in H. unfold upd in H.
+    destruct (Z.eqb_spec y j) as [->|N]; [exact OJ|]. apply MONO. apply X1; assumption. }
+  unfold event_post. destruct (ev_on_list ex j) eqn:OL.
+  - unfold PXI. cbn [ARes]. split; [|apply Eb_same; reflexivity]. constructor; try assumption.
+    apply (CV ex eq_refl); [auto|exact OL].
+  - cbv zeta. set (s1 := set_evlists ex (ev_pending ex ++ [j]) (ev_batch ex)).
+    assert (MONO1 : forall y, ev_on_list s y = true -> ev_on_list s1 y = true).
+    { intros y H. unfold ev_on_list in *. cbn [s1 ev_pending ev_batch set_evlists ex emit set_trace]. rewrite mem_z_app.
+      apply orb_true_iff in H. destruct H as [H|H]; rewrite H; [reflexivity|]. apply orb_true_r. }
+    assert (OJ1 : ev_on_list s1 j = true).
+    { unfold ev_on_list. cbn [s1 ev_pending ev_batch set_evlists]. rewrite mem_z_app. cbn [mem_z existsb]. rewrite Z.eqb_refl.
+      cbn. rewrite orb_true_r. reflexivity. }
+    destruct (_ && _) eqn:PT.
+    + apply andb_true_iff in PT. destruct PT as [_ PT]. apply negb_true_iff in PT.
+      destruct (task_register_acc s1 LOCAL_TASK) as (_ & _ & _ & _ & _ & _ & _ & _ & TR).
+      assert (TS : trace (task_register s1 LOCAL_TASK) = trace s1) by apply task_register_trace.
+      assert (FL : ev_pending (task_register s1 LOCAL_TASK) = ev_pending s1 /\ ev_batch (task_register s1 LOCAL_TASK) = ev_batch s1 /\
+                   kern (task_register s1 LOCAL_TASK) = kern s1 /\ time (task_register s1 LOCAL_TASK) = time s1 /\
+                   time_valid (task_register s1 LOCAL_TASK) = time_valid s1).
+      { unfold task_register. cbv zeta. repeat dm; repeat split. }
+      destruct FL as (F1 & F2 & F3 & F4 & F5).
+      unfold PXI. cbn [ARes]. split; [|apply Eb_same; rewrite F2; reflexivity]. constructor.
+      * apply CV; [apply mst_trace; rewrite TS; reflexivity| |].
+        -- intros y H. unfold ev_on_list. rewrite F1, F2. apply MONO1. exact H.
+        -- unfold ev_on_list. rewrite F1, F2. exact OJ1.
+      * intros _. rewrite TR. rewrite Z.eqb_refl. apply orb_true_r.
+      * rewrite F3. exact X3.
+      * rewrite F5, F4. exact X4.
+    + unfold PXI. cbn [ARes]. split; [|apply Eb_same; reflexivity]. constructor; try assumption.
+      * apply (CV s1 eq_refl MONO1 OJ1).
+      * intros _. apply andb_false_iff in PT. destruct PT as [PT|PT].
+        -- change (task_registered s1 LOCAL_TASK) with (task_registered s LOCAL_TASK). apply X2.
+           change (ev_pending ex) with (ev_pending s) in PT. destruct (ev_pending s); [discriminate PT|discriminate].
+        -- apply negb_false_iff in PT. exact PT.
+Qed.
+
+Theorem do_action_XI : forall b s a, J b s -> XI s -> wf_action a -> PXI s (do_action s a).
+Proof.
+  intros b s a Jh X W. destruct a; cbn [wf_action] in W.
+  - eapply xi_AFdReg; eassumption.
+  - eapply xi_AFdTry; eassumption.
+  - eapply xi_AFdUnreg; eassumption.
+  - eapply xi_AFdSetH; try eassumption. apply W.
+  - apply xi_AFdCookie; assumption.
+  - apply xi_AFdFresh; assumption.
+  - apply xi_AKSet; assumption.
+  - apply xi_AKClose; assumption.
+  - apply xi_AKOpen; assumption.
+  - apply xi_ATmRegAbs; assumption.
+  - apply xi_ATmRegRel; assumption.
+  - apply xi_ATmUnreg; assumption.
+  - apply xi_ATmFresh; assumption.
+  - apply xi_ATkReg; assumption.
+  - apply xi_ATkUnreg; assumption.
+  - apply xi_ATkFresh; assumption.
+  - eapply xi_AEvReg; eassumption.
+  - eapply xi_AEvUnreg; eassumption.
+  - apply xi_AEvPost; assumption.
+  - apply xi_AEvFresh; assumption.
+  - eapply xi_ARwReg; eassumption.
+  - eapply xi_ARwUnreg; eassumption.
+  - apply xi_ARwPost; assumption.
+  - apply xi_ARwFresh; assumption.
+  - apply xi_AQuit; assumption.
+  - apply xi_AClockAdv; assumption.
+  - apply xi_AInvalidate; assumption.
+  - apply xi_AValidate; assumption.
+Qed.
